@@ -40,6 +40,16 @@ func vH_C01_read_step() {
 		if j < k {
 			seg := vDataSeg("q", !isClient, 7, 2)
 			seg.metadata.(*dataAckStruct).seq = base + uint32(j)
+			if j == 0 && vNondetBool("q.session") {
+				// the head may be a session segment carrying payload (docs/protocol.md:
+				// every session segment may carry up to 1024 bytes): an open-session
+				// response at a client, an open-session request at a server
+				p := uint8(openSessionRequest)
+				if isClient {
+					p = uint8(openSessionResponse)
+				}
+				seg = &segment{metadata: &sessionStruct{baseStruct: baseStruct{protocol: p}, sessionID: 7, seq: base, payloadLen: uint16(len(seg.payload))}, payload: seg.payload, transport: tr}
+			}
 			s.recvQueue.Insert(seg)
 			for i := 0; i < 2; i++ {
 				if i < len(seg.payload) {
